@@ -75,6 +75,11 @@ func shapesFor(tier string) []Shape {
 				{Methods: []MShape{{NP: 2, Variadic: true, VarElem: "named", Rets: []RetKind{RNillable, RError}, SrcType: true}}},
 				{Methods: []MShape{{NP: 1, Rets: []RetKind{RPlain}}, {NP: 0, Rets: nil}}, Lower: true, NTP: 1},
 			}},
+			// two mocks in one file that are sensitive to the same per-mock options (sibling independence)
+			Shape{OutPkg: outPkg, Ifaces: []IShape{
+				{Methods: []MShape{{NP: 2, Variadic: true, VarElem: "named", Rets: []RetKind{RPlain}}}},
+				{Methods: []MShape{{NP: 2, Variadic: true, VarElem: "named", Rets: []RetKind{RPlain, RError}}, {NP: 1, Rets: nil}}},
+			}},
 		)
 	}
 	return out
